@@ -6,6 +6,7 @@ CONSTANTS
   PolicyTabs = {1, 2}
   AuthzTabs = {0, 1, 2}
   InitAuthz = {0, 1}
+  InitPtab = {1}
   Users = {"alice", "bob"}
   Permissive = TRUE
   Bug = {"TrustReportedEnc"}
